@@ -26,6 +26,7 @@ func main() {
 		{Name: "dir-big", Gen: genDirBig},
 		{Name: "und-big", Gen: genUndBig},
 		{Name: "und-traverse", Gen: genUndTraverse},
+		{Name: "traverse-reuse", Gen: genTraverseReuse},
 		{Name: "und-color", Gen: genUndColor},
 		{Name: "dir-flow5", Gen: genDirFlow5},
 		{Name: "dir-topo5", Gen: genDirTopo5},
